@@ -46,6 +46,7 @@ var genKeyedCols = []model.ColDef{{Name: "key", Kind: "key"}, {Name: "n", Kind: 
 
 type genState struct {
 	worldState
+	before   *model.Model // model before the current transaction (stream oracle)
 	spec     genSpec
 	sh       *model.World // shadow (C02)
 	restores int
@@ -159,11 +160,16 @@ func (st *genState) txn(acts []model.Act, fail bool, tag string) opx {
 				willFail = true
 			}
 		}
+		var before *model.Model
+		if st.spec.stream {
+			before = w.M.Clone()
+		}
 		res := w.Txn(acts, fail)
 		vs := res.Viol
 		if w.Poisoned {
 			return vs
 		}
+		st.before = before
 		if (res.Err != nil) != willFail && !st.spec.keyed {
 			vs = append(vs, eng.Violation{Assert: "query/result", Witness: "Query result differs from the body's result", Detail: fmt.Sprintf("%s returned %v", model.ActsString(acts, fail), res.Err)})
 		}
@@ -198,6 +204,36 @@ func (st *genState) checkStream(acts []model.Act, fail bool, res *model.TxnRes) 
 	want := res.Blocks
 	if res.Err != nil {
 		want = nil
+	}
+	// a block in which the transaction buffered operations that left every row as it
+	// was (a store of the value already there) may or may not count as "changed": the
+	// property does not say, so zero or one commit is accepted for it
+	if st.before != nil && res.Err == nil {
+		var strict, lenientGot []uint32
+		for _, b := range want {
+			if blockEqual(st.before, w.M, b) {
+				continue
+			}
+			strict = append(strict, b)
+		}
+		for _, b := range got {
+			keep := false
+			for _, x := range strict {
+				if x == b {
+					keep = true
+				}
+			}
+			dup := false
+			for _, x := range lenientGot {
+				if x == b {
+					dup = true
+				}
+			}
+			if keep || dup || !containsU32(want, b) {
+				lenientGot = append(lenientGot, b)
+			}
+		}
+		got, want = lenientGot, strict
 	}
 	if fmt.Sprint(got) != fmt.Sprint(want) {
 		wit := "emitted commits differ from the blocks the transaction changed"
@@ -342,3 +378,38 @@ func genUnits(specs []genSpec) (units []eng.Unit) {
 }
 
 var _ = strings.Join
+
+func containsU32(xs []uint32, x uint32) bool {
+	for _, y := range xs {
+		if y == x {
+			return true
+		}
+	}
+	return false
+}
+
+// blockEqual: the two models hold the same rows with the same values in one block.
+func blockEqual(a, b *model.Model, blk uint32) bool {
+	for off, ra := range a.Live {
+		if off>>14 != blk {
+			continue
+		}
+		rb, ok := b.Live[off]
+		if !ok || len(ra.V) != len(rb.V) {
+			return false
+		}
+		for k, v := range ra.V {
+			if rb.V[k] != v {
+				return false
+			}
+		}
+	}
+	for off := range b.Live {
+		if off>>14 == blk {
+			if _, ok := a.Live[off]; !ok {
+				return false
+			}
+		}
+	}
+	return true
+}
